@@ -8,8 +8,10 @@ What runs here (see design.d/C05.md):
     create_beats_from_divs, over the include_* options and unique_id_per_part;
   * direct oracle (Python, independent of the Coq model): expected rows computed from the
     specification (what was put into the score) and the part's own maps;
-  * correspondence: the Gallina model (coq/Model/C05.v) evaluated by vm_compute on the same inputs
-    must produce the same table (rows compared as multisets within equal (onset, pitch)).
+  * correspondence: the Gallina models (coq/Model/C05.v, C05_Ext.v, C05_Disp.v, C05_Inv.v) evaluated by
+    vm_compute on the same inputs must produce the same table (rows compared as multisets within equal
+    (onset, pitch)); for the inverse direction also the divisions, the pickup measure and the tied notes of
+    the Score that note_array_to_score returns.
 """
 import itertools
 import json
@@ -940,7 +942,7 @@ def run_coq(ctx, name, terms, cases, checker, what):
         ctx.obligation("correspondence: %s on 0 cases" % what, False, "no case generated")
         return
     try:
-        failing = ctx.coq_failing(name, "From PV Require Import Lib.Base Model.C05 Model.C05_Ext.\nFrom Coq Require Import QArith.", "", terms, checker, shard=40)
+        failing = ctx.coq_failing(name, "From PV Require Import Lib.Base Model.C05 Model.C05_Ext Model.C05_Inv Model.C05_Disp.\nFrom Coq Require Import QArith.", "", terms, checker, shard=40)
     except RuntimeError as e:
         ctx.obligation("correspondence: %s" % what, False, str(e)[-1500:])
         ctx.violation("correspondence machinery failed for %s: %s" % (name, str(e)[-800:]), {"stage": name}, no_input=True)
@@ -1148,10 +1150,14 @@ def c_itree(shape, pterms):
     return clist([pterms[x] if isinstance(x, int) else "(IGroup %s)" % c_itree(x, pterms) for x in shape])
 
 
-SCORE_CHECKER = "fun c => match c with (members, uniq, o, impl) => tree_case_ok members uniq o impl end"
+SCORE_CHECKER = "fun c => match c with (cont, members, uniq, o, impl) => dispatch_case_ok cont members uniq o impl end"
+CONTAINER = {"score": "CScore", "ensure_score": "CScore", "score_of_groups": "CScore", "ensure_list": "CList", "from_list": "CList",
+             "partgroup": "CGroup", "ensure_partgroup": "CGroup"}
 
 
-def c_score_case(specs, opts, uniq, rows, names, eff):
+def c_score_case(specs, opts, uniq, rows, names, shape, via):
+    """The members as they were handed over (nested shape) and the kind of container: the model decides what
+    note_array_from_part_list finally sees (a Score flattens its groups)."""
     sc, parts = build_score(specs)
     pterms = []
     for spec, part in zip(specs, parts):
@@ -1162,7 +1168,9 @@ def c_score_case(specs, opts, uniq, rows, names, eff):
     o = dict(opts)
     o["include_divs_per_quarter"] = "divs_pq" in names
     obs = "(%s : list obs)" % clist([c_obs(r, names, obs_id=r["_canon_id"]) for r in rows])
-    return "((%s : list itree), %s, %s, %s)" % (c_itree(eff, pterms), cbool(uniq), c_opts(o), obs)
+    if via in ("score", "ensure_score"):
+        shape = list(range(len(specs)))          # these entry points are handed the plain list of parts
+    return "(%s, (%s : list itree), %s, %s, %s)" % (CONTAINER[via], c_itree(shape, pterms), cbool(uniq), c_opts(o), obs)
 
 
 def stage_scores(ctx, n_scores, mp_ok, full_every):
@@ -1211,7 +1219,7 @@ def stage_scores(ctx, n_scores, mp_ok, full_every):
             if len(set(ds)) > 1 or empties or not flat:
                 ctx.nontrivial(("score", specs, opts, uniq, shape))
             if oi < 2:
-                term = c_score_case(specs, opts, uniq, rows, names, eff)
+                term = c_score_case(specs, opts, uniq, rows, names, shape, via)
                 if term is None:
                     continue
                 terms.append(term)
@@ -1229,7 +1237,8 @@ def stage_scores(ctx, n_scores, mp_ok, full_every):
                 ctx.violation("rest array of a list of parts [%s]: %s" % (rvia, msg),
                               {"kind": "restlist", "specs": specs, "uniq": uq, "via": rvia, "message": msg})
     run_coq(ctx, "score", terms, cases, SCORE_CHECKER,
-            "model tree_array (nested part groups; lcm rescaling, multipliers per member, two-pass sort; id prefixes compared "
+            "model ensure_notearray_m (container kind: a Score flattens its groups, a list / PartGroup keeps the nesting) + "
+            "tree_array (nested part groups; lcm rescaling, multipliers per member, two-pass sort; id prefixes compared "
             "after the oracle has found them consistent per part and prefix-free) = Score.note_array / PartGroup.note_array / "
             "ensure_notearray / note_array_from_part_list")
 
@@ -1414,7 +1423,7 @@ def check_inverse(case):
         D = int(out[0]["divs_pq"])
         if not f4_close(dq, du / D, span=abs(oq) + abs(oq + du / D)) or abs((oq - shift) - on / D) > 1e-4:
             return "quarter columns of the rebuilt score do not match its division columns (onset %d)" % on, None
-    return None, out
+    return None, (sc, out)
 
 
 def gen_inverse_list(rng):
@@ -1460,11 +1469,12 @@ def check_inverse_list(cases):
     return None
 
 
-def stage_inverse(ctx, n_cases):
+def stage_inverse(ctx, n_cases, n_metrical):
     import numpy as np
     from partitura.musicanalysis.note_array_to_score import create_divs_from_beats, create_beats_from_divs
     rng = ctx.rng
     terms, cases = [], []
+    rb_terms, rb_cases = [], []
     for ci in range(n_cases):
         case = gen_inverse_case(rng)
         msg, out = check_inverse(case)
@@ -1483,6 +1493,12 @@ def stage_inverse(ctx, n_cases):
         ctx.nontrivial(("inverse", case))
         if ci < 1:
             ctx.sample({"inverse_case": case})
+        if ci % 2 == 0:
+            term = inverse_rebuild_term(case, out)
+            ctx.count("rebuild:inverse_case" + ("" if term is not None else ":not_printable"))
+            if term is not None:
+                rb_terms.append(term)
+                rb_cases.append({"kind": "inverse", "case": case})
         if ci % 6 == 0:
             lst = gen_inverse_list(rng)
             lmsg = check_inverse_list(lst)
@@ -1521,6 +1537,12 @@ def stage_inverse(ctx, n_cases):
                 if abs(float(r["onset_beat"]) - int(r["onset_div"]) / d) > 1e-9 or abs(float(r["duration_beat"]) - int(r["duration_div"]) / d) > 1e-9:
                     ctx.violation("create_beats_from_divs(divs=%d): %r" % (d, r), {"kind": "inverse", "case": case, "message": "create_beats_from_divs"})
                     break
+    stage_metrical(ctx, n_metrical, rb_terms, rb_cases)
+    run_coq(ctx, "rebuild", rb_terms, rb_cases, REBUILD_CHECKER,
+            "model of note_array_to_score (lexsort, inferred divisions, pickup measure, time signatures from the columns, one "
+            "note per row cut into tied pieces where the rebuilt part has them) composed with the model note_array = divisions, "
+            "first measure, time signatures and notes of the rebuilt part and the rows (division columns; beat columns on "
+            "metrical arrays) of its note array")
     run_coq(ctx, "inverse", terms, cases,
             "fun c => match c with (ons, dus, impl) => inverse_case_ok_m ons dus impl end",
             "create_divs_from_beats returns a positive multiple of the model's lcm of the onset and duration denominators and the "
@@ -1555,6 +1577,418 @@ def failure_class(msg):
         return None
     import re
     return re.sub(r"[0-9]+|'[^']*'", "#", msg)[:60]
+
+
+# ---- inverse direction on a metrical grid (pickup measures, time signature columns) and the rebuilt part
+
+
+MET_TS = [(4, 4), (3, 4), (2, 4), (6, 8), (3, 8), (2, 2), (5, 4), (12, 8), (9, 8), (3, 2)]
+MET_DIVS = [1, 2, 2, 3, 4, 4, 6, 6, 8, 12, 24, 120, 480]
+MET_GRID_DEN = [1, 2, 3, 4, 6, 8, 12]
+
+
+def gen_metrical_case(rng):
+    """A note array as it is taken from a score: division AND beat columns (or beat columns alone), beat 0 at
+    division P (pickup measure of P divisions; 70 % of the cases), the first note at division 0 or later (the
+    pickup begins with a rest: half of the pickups), time signature given by columns (40 % of them changing:
+    the numerator, for arrays with both kinds of columns also the beat type -- then a note starts at the barline
+    of the change --, a third of the changes returning to the first signature), by the time_sigs argument, by
+    estimate_time (4/4) or not at all."""
+    tsmode = rng.choice(["cols", "cols", "cols", "cols", "param", "param", "estimate", "estimate", "none", "none"])
+    kind = rng.choice(["both", "both", "beat"])
+    if tsmode == "cols" and kind == "both":
+        b, bt = rng.choice(MET_TS)
+    elif tsmode == "estimate":
+        b, bt = 4, 4
+    else:                                    # without time signature columns beats are read as quarters
+        b, bt = rng.choice([x for x in MET_TS if x[1] == 4])
+    while True:
+        divs = rng.choice(MET_DIVS)
+        if (divs * 4) % bt == 0:
+            break
+    unit = divs * 4 // bt
+    # positions are multiples of g (denominators of the beat values stay below 256 for create_divs_from_beats)
+    g = 1
+    if divs >= 24:
+        g = divs // rng.choice([d for d in MET_GRID_DEN if divs % d == 0])
+    # segments of (beats per measure, beat type, number of measures)
+    segs = [[b, bt, rng.randint(1, 3)]]
+    if tsmode == "cols" and rng.random() < 0.5:
+        segs[0][2] = rng.randint(1, 2)
+        for _ in range(rng.randint(1, 2)):
+            if len(segs) == 2 and rng.random() < 0.5:
+                nb, nbt = segs[0][0], segs[0][1]          # back to the first signature
+            else:
+                nbt = segs[-1][1]
+                if kind == "both" and rng.random() < 0.5:
+                    nbt = rng.choice([x for x in (2, 4, 8) if (divs * 4) % x == 0])
+                nb = rng.choice([x for x in (2, 3, 4, 5, 6, 9, 12) if (x, nbt) != (segs[-1][0], segs[-1][1])])
+            segs.append([nb, nbt, rng.randint(1, 2)])
+    mlen = b * unit
+    P = 0
+    if rng.random() < 0.7 and mlen > g:
+        P = g * rng.randint(1, (mlen - 1) // g)
+    measures = [[0, P, b, bt]] if P else []
+    t = P
+    forced = []                               # a note starts where the beat type changes
+    for si, (nb, nbt, k) in enumerate(segs):
+        if si > 0 and nbt != segs[si - 1][1]:
+            forced.append(t)
+        for _ in range(k):
+            ml = nb * divs * 4 // nbt
+            measures.append([t, t + ml, nb, nbt])
+            t += ml
+    total = t
+    first = 0
+    if P > 0 and rng.random() < 0.5:
+        first = g * rng.randrange(0, P // g)
+    rows = []
+    t = first
+    n = rng.randint(1, 9) if len(segs) == 1 else rng.randint(2, 6) * len(segs)
+    for i in range(n):
+        if t >= total:
+            break
+        du = g * rng.randint(1, max(1, (2 if len(segs) == 1 else 4) * unit // g))
+        rows.append([t, du, rng.randint(40, 88)])
+        r = rng.random()
+        if r < 0.2:
+            pass                              # chord
+        elif r < 0.8:
+            t += du
+        else:
+            t += g * rng.randint(1, max(1, 3 * unit // g))
+    # at least one complete measure after the pickup (a piece that ends inside its first measure IS a pickup)
+    end = max(r[0] + r[1] for r in rows)
+    if end < P + mlen:
+        s0 = max(min(t, P + mlen - g), rows[-1][0])
+        rows.append([s0, P + mlen - s0 + g * rng.randint(0, 2), rng.randint(40, 88)])
+    for ft in forced:
+        if not any(r[0] == ft for r in rows):
+            rows.append([ft, g * rng.randint(1, max(1, unit // g)), rng.randint(40, 88)])
+    rows.sort()
+    case = {"kind": kind, "divs": divs, "P": P, "measures": measures, "rows": rows, "tsmode": tsmode,
+            "f8": rng.random() < 0.25, "give_divs": rng.random() < 0.3,
+            "voice": [rng.randint(1, 3) for _ in rows] if rng.random() < 0.6 else None}
+    if not met_first_row_uniform(case):
+        case["give_divs"] = True              # documented limit of the inference ("possible error against div/beat")
+    if rng.random() < 0.3:
+        idx = list(range(len(case["rows"])))
+        rng.shuffle(idx)                      # handed over unsorted
+        case["rows"] = [case["rows"][i] for i in idx]
+        if case["voice"]:
+            case["voice"] = [case["voice"][i] for i in idx]
+    return case
+
+
+def met_measure(c, t):
+    """The measure (start, end, beats, beat type) in which division t lies."""
+    ms = c["measures"]
+    for m in ms:
+        if m[0] <= t < m[1]:
+            return m
+    return ms[-1] if t >= ms[-1][1] else ms[0]
+
+
+def met_beat(c, t):
+    """Beat position of division t: beat 0 at division P, beats counted in the beat type in force."""
+    pos = Fraction(0)
+    P = c["P"]
+    lo, hi = (P, t) if t >= P else (t, P)
+    for m in c["measures"]:
+        a, b = max(lo, m[0]), min(hi, m[1] if m is not c["measures"][-1] else max(hi, m[1]))
+        if b > a:
+            pos += Fraction((b - a) * m[3], c["divs"] * 4)
+    return pos if t >= P else -pos
+
+
+def met_first_row_uniform(c):
+    """The divisions of an array with both kinds of columns are inferred from the first row (onset, pitch,
+    duration order) with a non-zero duration: its beat duration must be counted in ONE beat type."""
+    r = min((r for r in c["rows"] if r[1] > 0), key=lambda r: (r[0], r[2], r[1]), default=None)
+    if r is None:
+        return True
+    return len({m[3] for m in c["measures"] if m[0] < r[0] + r[1] and m[1] > r[0]} | {met_measure(c, r[0])[3]}) == 1
+
+
+def met_single_bt(c):
+    bts = {m[3] for m in c["measures"]}
+    return next(iter(bts)) if len(bts) == 1 else None
+
+
+def metrical_valid(c):
+    """The class of arrays the metrical oracle speaks about (kept by the shrinker)."""
+    rows = c["rows"]
+    if not rows:
+        return False
+    P = c["P"]
+    full = next(m for m in c["measures"] if m[0] == P)
+    if P > 0 and not any(r[0] < P for r in rows):
+        return False
+    for a, b in zip(c["measures"], c["measures"][1:]):
+        if a[3] != b[3] and not any(r[0] == b[0] for r in rows):
+            return False                      # a note starts where the beat type changes
+    if c["kind"] == "both" and not c["give_divs"] and not met_first_row_uniform(c):
+        return False
+    return max(r[0] + r[1] for r in rows) >= full[1]
+
+
+def build_metrical_array(c):
+    import numpy as np
+    ft = "f8" if c["f8"] else "f4"
+    fields, cols = [], []
+    rows = c["rows"]
+    if c["kind"] == "both":
+        fields += [("onset_div", "i4"), ("duration_div", "i4")]
+        cols += [[r[0] for r in rows], [r[1] for r in rows]]
+    fields += [("onset_beat", ft), ("duration_beat", ft)]
+    cols += [[float(met_beat(c, r[0])) for r in rows], [float(met_beat(c, r[0] + r[1]) - met_beat(c, r[0])) for r in rows]]
+    fields += [("pitch", "i4")]
+    cols += [[r[2] for r in rows]]
+    if c["tsmode"] == "cols":
+        fields += [("ts_beats", "i4"), ("ts_beat_type", "i4")]
+        cols += [[met_measure(c, r[0])[2] for r in rows], [met_measure(c, r[0])[3] for r in rows]]
+    if c["voice"]:
+        fields += [("voice", "i4")]
+        cols += [c["voice"]]
+    return np.array(list(zip(*cols)), dtype=fields)
+
+
+def metrical_kwargs(c):
+    kw = {}
+    if c["tsmode"] == "estimate":
+        kw["estimate_time"] = True
+    if c["tsmode"] == "param":
+        kw["time_sigs"] = [[0, c["measures"][0][2], c["measures"][0][3]]]
+    if c["give_divs"] and c["kind"] == "both":
+        kw["divs"] = c["divs"]
+    return kw
+
+
+def beats_close(g, e):
+    return abs(g - e) <= 2.0 ** -18 * max(1.0, abs(e))
+
+
+def check_metrical(c):
+    """note_array_to_score then note_array on an array with a metrical grid: the same onsets, durations and
+    pitches -- in divisions / quarters AND in beats (when the time signature is known, so that the rebuilt score
+    has measures; without it the beat onsets may differ by one constant, the position of beat 0)."""
+    from partitura.musicanalysis.note_array_to_score import note_array_to_score
+    arr = build_metrical_array(c)
+    try:
+        sc = note_array_to_score(arr.copy(), **metrical_kwargs(c))
+        out = sc.note_array(include_divs_per_quarter=True, include_time_signature=True)
+    except Exception as e:
+        return "raised %s: %s" % (type(e).__name__, e), None
+    rows = c["rows"]
+    if len(out) != len(rows):
+        return "round trip returned %d rows for %d input rows" % (len(out), len(rows)), None
+    D = int(out["divs_pq"][0])
+    d = c["divs"]
+    shift = min(r[0] for r in rows) if c["kind"] == "beat" else 0     # beat-only arrays begin at division 0
+    exp = sorted((Fraction(r[0] - shift, d), r[2], Fraction(r[1], d)) for r in rows)
+    got = sorted((Fraction(int(r["onset_div"]), D), int(r["pitch"]), Fraction(int(r["duration_div"]), D)) for r in out)
+    if got != exp:
+        i = next(i for i in range(len(exp)) if got[i] != exp[i])
+        return ("after note_array_to_score + note_array the %d-th row (onset, pitch, duration in quarters) is %s, the input array has %s"
+                % (i, tuple(str(x) for x in got[i]), tuple(str(x) for x in exp[i]))), None
+    if c["kind"] == "both" and sorted((int(r["onset_div"]), int(r["pitch"]), int(r["duration_div"])) for r in out) != sorted((r[0], r[2], r[1]) for r in rows):
+        return "division columns changed in the round trip (divs=%d, rebuilt score has %d)" % (d, D), None
+    expb = sorted((r[0], r[2], r[1], float(met_beat(c, r[0])), float(met_beat(c, r[0] + r[1]) - met_beat(c, r[0]))) for r in rows)
+    gotb = sorted((int(r["onset_div"]) * d // D + shift, int(r["pitch"]), int(r["duration_div"]) * d // D,
+                   float(r["onset_beat"]), float(r["duration_beat"])) for r in out)
+    off = (gotb[0][3] - expb[0][3]) if c["tsmode"] == "none" else 0.0
+    for gb, eb in zip(gotb, expb):
+        if not beats_close(gb[3] - off, eb[3]) or not beats_close(gb[4], eb[4]):
+            ms = [(int(m.start.t), int(m.end.t)) for m in sc[0].measures][:3]
+            return ("the row with onset_div %d, pitch %d comes back with onset_beat %s, duration_beat %s; the input array has %s, %s "
+                    "(beat 0 at division %d; first measures of the rebuilt score %s%s)"
+                    % (eb[0], eb[1], gb[3], gb[4], eb[3], eb[4], c["P"], ms,
+                       "; no time signature: compared up to the constant %s" % off if c["tsmode"] == "none" else "")), None
+    return None, (sc, out)
+
+
+def shrink_metrical(c):
+    cls = failure_class(check_metrical(c)[0])
+    idx = list(range(len(c["rows"])))
+
+    def sub(keep):
+        k = dict(c)
+        k["rows"] = [c["rows"][i] for i in keep]
+        if c["voice"]:
+            k["voice"] = [c["voice"][i] for i in keep]
+        return k
+
+    def fails(keep):
+        k = sub(keep)
+        try:
+            return metrical_valid(k) and failure_class(check_metrical(k)[0]) == cls
+        except Exception:
+            return False
+    if len(idx) < 2:
+        return c
+    return sub(core.ddmin(idx, fails))
+
+
+def observe_rebuilt(part):
+    """What note_array_to_score built (the Score it returns is an observation point of C05): divisions, first
+    measure, time signatures, the notes with their tie links."""
+    import partitura.score as S
+    qd = [(int(t), int(q)) for t, q in part.quarter_durations()] if hasattr(part, "quarter_durations") else []
+    meas = sorted((int(m.start.t), int(m.end.t)) for m in part.iter_all(S.Measure))
+    tss = sorted((int(x.start.t), int(x.beats), int(x.beat_type)) for x in part.iter_all(S.TimeSignature))
+    notes = list(part.notes)
+    heads = []
+    for n in notes:
+        if n.tie_prev is None:
+            ch, m, guard = [], n, 0
+            while m is not None and guard < 1000:
+                ch.append((int(m.start.t), int(m.end.t)))
+                m = m.tie_next
+                guard += 1
+            heads.append({"id": n.id, "on": int(n.start.t), "pitch": int(n.midi_pitch), "dur": ch[-1][1] - ch[0][0],
+                          "step": n.step, "alter": (None if n.alter is None else int(n.alter)), "oct": int(n.octave),
+                          "voice": (None if n.voice is None else int(n.voice)), "cuts": [x[0] for x in ch[1:]]})
+    sigs = sorted([int(n.start.t), int(n.end.t), (int(n.midi_pitch) if n.tie_prev is None else 0), 1 if n.tie_prev is None else 0,
+                   1 if n.tie_next is None else 0] for n in notes)
+    return {"divs": qd[0][1] if len(qd) == 1 else None, "measures": meas, "ts": tss, "heads": heads, "sigs": sigs}
+
+
+def c_irow(on, du, onb, durb, pitch, ts, h):
+    return "(mkIRow %s %s %s %s %s %s %s %s %s %s %s %s)" % (
+        cz(on), cz(du), core.cfloat_q(onb), core.cfloat_q(durb), cz(pitch),
+        copt(ts, lambda v: ctuple([cz(v[0]), cz(v[1])])), cstr(h["id"] or ""), cstr(h["step"]), copt(h["alter"], cz), cz(h["oct"]),
+        copt(h["voice"], cz), "(%s : list Z)" % clist([cz(x) for x in h["cuts"]]))
+
+
+def c_rebuild_case(in_rows, given, has_meas, bt, cmp_ts, cmp_beats, sc, out):
+    """in_rows: [(onset_div, duration_div, onset_beat, duration_beat, pitch, ts | None)] in the order handed over.
+    Returns the Coq term or None (a row of the input has no note in the rebuilt part: the oracle's business)."""
+    ob = observe_rebuilt(sc[0])
+    if ob["divs"] is None:
+        return None
+    pool = {}
+    for h in ob["heads"]:
+        pool.setdefault((h["on"], h["pitch"], h["dur"]), []).append(h)
+    irows = []
+    for on, du, onb, durb, pitch, ts in in_rows:
+        hs = pool.get((on, pitch, du))
+        if not hs:
+            return None
+        irows.append(c_irow(on, du, onb, durb, pitch, ts, hs.pop()))
+    first_meas = ob["measures"][0] if ob["measures"] else None
+    obs_rows = clist([ctuple([cz(int(r["onset_div"])), cz(int(r["duration_div"])), cz(int(r["pitch"])),
+                              ctuple([core.cfloat_q(float(r["onset_beat"])), core.cfloat_q(float(r["duration_beat"]))])]) for r in out])
+    return "((%s : list irow), %s, %s, %s, %s, %s, %s, %s, (%s : list (Z * (Z * Z))), (%s : list (list Z)), (%s : list (Z * Z * Z * (Q * Q))))" % (
+        clist(irows), copt(given, cz), cbool(has_meas), cz(bt), cbool(cmp_ts), cbool(cmp_beats), cz(ob["divs"]),
+        copt(first_meas, lambda v: ctuple([cz(v[0]), cz(v[1])])),
+        clist([ctuple([cz(int(r["onset_div"])), ctuple([cz(int(r["ts_beats"])), cz(int(r["ts_beat_type"]))])]) for r in out]
+              if "ts_beats" in out.dtype.names else []),
+        clist([clist([cz(x) for x in sg]) for sg in ob["sigs"]]), obs_rows)
+
+
+REBUILD_CHECKER = ("fun c => match c with (l, given, has_meas, bt, cmp_ts, cmp_beats, d, fm, ts, notes, rows) => "
+                   "rebuild_case_ok l given has_meas bt cmp_ts cmp_beats d fm ts notes rows end")
+
+
+def metrical_rebuild_term(c, sc, out):
+    from partitura.musicanalysis.note_array_to_score import create_divs_from_beats
+    arr = build_metrical_array(c)
+    if c["kind"] == "beat":
+        na, d = create_divs_from_beats(arr)
+        ons, dus, given = [int(x) for x in na["onset_div"]], [int(x) for x in na["duration_div"]], int(d)
+    else:
+        ons, dus = [r[0] for r in c["rows"]], [r[1] for r in c["rows"]]
+        given = c["divs"] if c["give_divs"] else None
+    in_rows = [(ons[i], dus[i], float(arr["onset_beat"][i]), float(arr["duration_beat"][i]), r[2],
+                (tuple(met_measure(c, r[0])[2:4]) if c["tsmode"] == "cols" else None)) for i, r in enumerate(c["rows"])]
+    has_meas = c["tsmode"] != "none"
+    bt = met_single_bt(c)                 # the model's beat map of the rebuilt part covers one beat type
+    return c_rebuild_case(in_rows, given, has_meas, bt or 4, c["tsmode"] == "cols", has_meas and bt is not None, sc, out)
+
+
+def inverse_rebuild_term(case, out_sc):
+    """The classical inverse cases (no pickup, beats in quarters) through the same model."""
+    from partitura.musicanalysis.note_array_to_score import create_divs_from_beats
+    sc, out = out_sc
+    arr = build_inverse_array(case)
+    if case["kind"] == "beat":
+        na, d = create_divs_from_beats(arr)
+        ons, dus, given = [int(x) for x in na["onset_div"]], [int(x) for x in na["duration_div"]], int(d)
+        onb, dub = [float(x) for x in arr["onset_beat"]], [float(x) for x in arr["duration_beat"]]
+    elif case["kind"] == "div":
+        d = case["divs"]
+        ons, dus, given = [int(x) for x in arr["onset_div"]], [int(x) for x in arr["duration_div"]], d
+        onb, dub = [x / d for x in ons], [x / d for x in dus]
+    else:
+        ons, dus, given = [int(x) for x in arr["onset_div"]], [int(x) for x in arr["duration_div"]], None
+        onb, dub = [float(x) for x in arr["onset_beat"]], [float(x) for x in arr["duration_beat"]]
+    if all(x == 0 for x in dub):
+        return None
+    in_rows = [(ons[i], dus[i], onb[i], dub[i], int(arr["pitch"][i]), None) for i in range(len(arr))]
+    return c_rebuild_case(in_rows, given, bool(case["estimate_time"]), 4, False, False, sc, out)
+
+
+def enumerate_metrical_small():
+    """Small scope, complete: every time signature of MET_TS at 1, 2, 3, 6 divisions, every pickup length P below a
+    measure, every position of the first note in the pickup (0 = no rest): one note from there to the barline, then
+    one note per beat for a measure and a beat."""
+    for b, bt in MET_TS:
+        for divs in (1, 2, 3, 6):
+            if (divs * 4) % bt:
+                continue
+            unit = divs * 4 // bt
+            mlen = b * unit
+            for P in range(0, mlen):
+                for first in (range(0, P) if P else [0]):
+                    rows = ([[first, P - first, 60]] if P else []) + [[P + k * unit, unit, 62 + k % 5] for k in range(b + 1)]
+                    measures = ([[0, P, b, bt]] if P else []) + [[P, P + mlen, b, bt], [P + mlen, P + 2 * mlen, b, bt]]
+                    yield {"kind": "both", "divs": divs, "P": P, "measures": measures, "rows": rows, "tsmode": "cols",
+                           "f8": False, "give_divs": False, "voice": None}
+
+
+def stage_metrical(ctx, n_cases, rebuild_terms, rebuild_cases):
+    rng = ctx.rng
+    if ctx.tier != "quick":
+        n_enum = 0
+        for c in enumerate_metrical_small():
+            msg, res = check_metrical(c)
+            ctx.evaluations += 1
+            n_enum += 1
+            if msg:
+                ctx.violation("note_array_to_score -> note_array (small-scope enumeration of pickups): %s" % msg,
+                              {"kind": "metrical", "case": c, "message": msg})
+                break
+        ctx.count("metrical:small_scope_enumeration", n_enum)
+    for ci in range(n_cases):
+        c = gen_metrical_case(rng)
+        msg, res = check_metrical(c)
+        ctx.evaluations += 1
+        rest_first = c["P"] > 0 and min(r[0] for r in c["rows"]) > 0
+        ctx.count("metrical:%s:ts=%s" % (c["kind"], c["tsmode"]))
+        ctx.count("metrical:" + ("no_pickup" if c["P"] == 0 else ("pickup_begins_with_rest" if rest_first else "pickup")))
+        sigs = [tuple(met_measure(c, r[0])[2:4]) for r in sorted(c["rows"])]
+        runs = [x for i, x in enumerate(sigs) if i == 0 or x != sigs[i - 1]]
+        if len(runs) > 1 and c["tsmode"] == "cols":
+            ctx.count("metrical:time_signature_changes")
+            if len({x[1] for x in runs}) > 1:
+                ctx.count("metrical:beat_type_changes")
+            if len(set(runs)) < len(runs):
+                ctx.count("metrical:time_signature_returns")
+        if msg:
+            small = shrink_metrical(c)
+            m2 = check_metrical(small)[0]
+            ctx.violation("note_array_to_score -> note_array (array with %s columns, time signature: %s): %s"
+                          % ("beat and division" if c["kind"] == "both" else "beat", c["tsmode"], m2 or msg),
+                          {"kind": "metrical", "case": small, "message": m2 or msg})
+            continue
+        ctx.nontrivial(("metrical", c))
+        if ci < 1:
+            ctx.sample({"metrical_case": c})
+        term = metrical_rebuild_term(c, *res)
+        ctx.count("rebuild:metrical_case" + ("" if term is not None else ":not_printable"))
+        if term is not None:
+            rebuild_terms.append(term)
+            rebuild_cases.append({"kind": "metrical", "case": c})
 
 
 # ---- corpus
@@ -1627,7 +2061,12 @@ def run(ctx):
                 "without notes at a random position, 8 % one part, 6 % 11-14 parts (two-digit part numbers), 10 % with a dense part, "
                 "55 % handed over as nested PartGroups (groups of one part, groups in groups)).  One evaluation = one call of an "
                 "entry point (part x option set, list of parts x option set x unique_id_per_part x entry point x arrangement, one "
-                "reading of a history, one inverse round trip).  Histories: a part is read, extended (notes, tie links) and read "
+                "reading of a history, one inverse round trip).  Inverse direction: arrays with beat (50 %), division (25 %) or both kinds "
+                "of columns, denominators up to 16, zero-duration rows, lists of 2-3 arrays; METRICAL arrays (as taken from a score): beat "
+                "and division columns (2/3) or beat columns alone, beat 0 at division P (pickup 70 %, half of them beginning with a rest), "
+                "time signature from ts columns (40 %, half of them changing numerator and/or beat type, also returning), time_sigs, "
+                "estimate_time or none (20 % each), divisions 1..480, f4/f8, divs given 30 %, rows unsorted 30 %.  Histories: a part is "
+                "read, extended (notes, tie links) and read "
                 "again, half of them with identical options.  Distinct non-trivial = distinct (specification, options[, arrangement]) "
                 "whose specification has at least one of the counted features (parts), differing divisions / a part without notes / a "
                 "nested arrangement (scores), every history, every inverse case.")
@@ -1644,8 +2083,13 @@ def run(ctx):
                        "divs_pq in a score array when it was not asked for and the exact number of divisions create_divs_from_beats "
                        "picks are not named by the property: only 'not a stated voice', 'one prefix per part, prefix-free across "
                        "parts', and 'a positive multiple of the lcm of the denominators' are demanded",
-                       "inverse direction: non-negative onsets, denominators <= 16, arrays without 'voice' carry no zero-duration notes (voice estimation is C17)"]
-    ok, why = ctx.coq_props(expect_min=30)
+                       "inverse direction: denominators <= 16 (metrical arrays: positions on a 1/12 .. 1/1 grid of the quarter at 120 / 480 divisions), arrays "
+                       "without 'voice' carry no zero-duration notes (voice estimation is C17); metrical arrays: at least one complete measure "
+                       "after the pickup, a note before beat 0 when beat 0 is not at division 0, a note at every change of beat type, the first "
+                       "note within one beat type unless divs is given (documented limit of the inference); beat columns of the round trip are "
+                       "demanded exactly (2^-18) only when the time signature is known, else up to one constant",
+                       "the float arithmetic of the inferred divisions / pickup length is modelled on the exact rational values of the floats"]
+    ok, why = ctx.coq_props(expect_min=39)
     if not ok:
         ctx.log("coq_props failed: " + why[:2000])
     mp_ok = probe_metrical_position()
@@ -1653,12 +2097,16 @@ def run(ctx):
     ctx.count("probe:metrical_position_" + ("on" if mp_ok else "excluded(D13)"))
     quick = ctx.tier == "quick"
     nv0 = len(ctx.violations)
+    ctx.log("proofs checked; corpus and parts")
     stage_corpus(ctx, mp_ok)
-    stage_parts(ctx, n_parts=(120 if quick else 1200), n_random_opts=(2 if quick else 4),
+    stage_parts(ctx, n_parts=(100 if quick else 1000), n_random_opts=(2 if quick else 4),
                 full_every=(0 if quick else 12), mp_ok=mp_ok, coq_per_part=(2 if quick else 2))
-    stage_history(ctx, n=(60 if quick else 600), mp_ok=mp_ok)
-    stage_scores(ctx, n_scores=(90 if quick else 900), mp_ok=mp_ok, full_every=(0 if quick else 30))
-    stage_inverse(ctx, n_cases=(200 if quick else 3000))
+    ctx.log("histories")
+    stage_history(ctx, n=(60 if quick else 500), mp_ok=mp_ok)
+    ctx.log("scores")
+    stage_scores(ctx, n_scores=(75 if quick else 800), mp_ok=mp_ok, full_every=(0 if quick else 30))
+    ctx.log("inverse direction")
+    stage_inverse(ctx, n_cases=(160 if quick else 2500), n_metrical=(220 if quick else 2500))
     if not ok and len(ctx.violations) == nv0:
         ctx.violation("proof obligations of Props/C05.v no longer check: " + why, {"theorem_or_build": why}, no_input=True)
 
@@ -1696,7 +2144,21 @@ def replay(obj):
         print("oracle:", check_history(r["spec"], r["first_ids"], r["opts1"], r["opts2"], r.get("rests", False))[:2])
     elif kind == "inverse":
         print("array:\n", build_inverse_array(r["case"]))
-        print("oracle:", check_inverse(r["case"]))
+        print("oracle:", check_inverse(r["case"])[0])
+    elif kind == "metrical":
+        c = r["case"]
+        arr = build_metrical_array(c)
+        print("array (beat 0 at division %d, %d divisions per quarter, measures (start, end, beats, beat type) %s):\n" % (c["P"], c["divs"], c["measures"]), arr)
+        print("note_array_to_score arguments:", metrical_kwargs(c))
+        msg, res = check_metrical(c)
+        print("oracle:", msg)
+        try:
+            from partitura.musicanalysis.note_array_to_score import note_array_to_score
+            sc = note_array_to_score(arr.copy(), **metrical_kwargs(c))
+            print("rebuilt part:", json.dumps(observe_rebuilt(sc[0])))
+            print("its note array:\n", sc.note_array(include_divs_per_quarter=True))
+        except Exception as e:
+            print("implementation raised", type(e).__name__, e)
     else:
         print(json.dumps(r, indent=1, default=str))
     return 0
